@@ -157,8 +157,13 @@ func H_Value() {
 	}
 }
 
+var negKey bool // the traversal under test has a negative number index key
+
 func keyStep() hcl.Traverser {
-	switch vf.Concretize(vf.Choice(4)) {
+	switch vf.Concretize(vf.Choice(5)) {
+	case 4:
+		negKey = true
+		return hcl.TraverseIndex{Key: cty.NumberIntVal(-1)}
 	case 0:
 		return hcl.TraverseIndex{Key: cty.StringVal(asciiKey(vf.Param("klen", 3)))}
 	case 1:
@@ -198,6 +203,7 @@ func sameStep(a, b hcl.Traverser) bool {
 
 // H_Traversal: absolute traversals of up to 3 steps parse back to the same steps.
 func H_Traversal() {
+	negKey = false
 	root := []string{"a", "for", "null", "x1"}[vf.Concretize(vf.Choice(4))]
 	trav := hcl.Traversal{hcl.TraverseRoot{Name: root}}
 	steps := vf.Concretize(vf.Choice(4))
@@ -211,7 +217,7 @@ func H_Traversal() {
 	src := hclwrite.TokensForTraversal(trav).Bytes()
 	vf.Observe("src", src)
 	back, diags := hclsyntax.ParseTraversalAbs(src, "gen.hcl", hcl.InitialPos)
-	vf.Assert(!diags.HasErrors(), "traversal-source-parses")
+	vf.AssertKnown(!diags.HasErrors(), "traversal-source-parses", "C11-negative-index-key", negKey)
 	if diags.HasErrors() {
 		return
 	}
